@@ -24,6 +24,22 @@ PROPS = {
         not_decided='name-syntax half of C18: name, ncname, qname, nmtoken, pi_target, enc_name, take_except are nom combinator compositions, outside both verifiers',
         explanation='classification half of C18: every is_* predicate of nom/src/xmlchar.rs equals the production range table for every char; Verus (SMT, all chars) and Kani (loop-free, kani::any::<char>(), complete) as two independent back ends',
     ),
+    'C16': dict(
+        verus_units=['c16_chardata'],
+        level='proof',
+        trusted_base=TRUSTED_VERUS,
+        assumptions=[A1, A2 + ' (chars().collect, iter().collect, drain, chars().count, skip/take/collect, to_string; String character count fits usize)', A3, A4, A6, A8],
+        not_decided='split_text / split_at (node construction and sibling linkage are tree structure), XmlExpandedText, RefCell re-entrancy, the nom validity checkers themselves',
+        explanation='DOM Level 1 CharacterData over the character sequence of text, comment and CDATA nodes, three layers (info helpers, info methods, DOM methods and CharacterDataMut trait defaults), every function verified against the contracts of its callees for all contents, offsets and counts, including absence of overflow and of std panics',
+    ),
+    'C13': dict(
+        verus_units=['c16_chardata'],
+        level='proof',
+        trusted_base=TRUSTED_VERUS,
+        assumptions=[A1, A2, A3, A4, A6, A8],
+        not_decided='every tree/attribute mutator and factory (append_child, insert_before, replace_child, remove_child, set_named_item, create_*): live Rc<RefCell> graph',
+        explanation='character-data setters only: insert_data, delete_data, replace_data, set_data, append_data on the three node kinds raise IndexSizeErr exactly for an offset past the end, never for a count running past the end, and leave the data unchanged whenever they return Err (atomic failure)',
+    ),
     'C02': dict(
         verus_units=['info_helpers'],
         level='proof',
@@ -68,6 +84,16 @@ MANIFEST_TEXT = {
         level_note='Trusted: Verus+Z3, Kani+CBMC, the extractor (verbatim ratio reported), the hand transcription of the W3C tables (spec/xml_chars.json), three assumed std contracts (char::is_ascii_*) on the Verus side. Not decided: the name productions (nom).',
         technique='contract-based deductive verification (Verus postconditions on extracted real functions; complete loop-free Kani harnesses)',
         design_ref='DESIGN.md §4 C18'),
+    'C16': dict(
+        level_text='Proof (Verus, unbounded: all contents, offsets, counts) that length/substring_data/insert_data/delete_data/append_data/replace_data/set_data on text, comment and CDATA nodes compute the DOM Level 1 result over the character sequence (offset past the end = IndexSizeErr, count clipped to the end), with no overflow or std panic, through three layers of real functions each checked against its callees\' contracts. split_text and XmlExpandedText not covered.',
+        level_note='Trusted: Verus+Z3, extractor, std iterator shims, the nom validity checkers as uninterpreted predicates (A3), RefCell modelled as plain ownership (A4).',
+        technique='contract-based deductive verification (Verus pre/postconditions and frame on extracted real functions, modular across three layers)',
+        design_ref='DESIGN.md §4 C16'),
+    'C13': dict(
+        level_text='Proof (Verus) of exception class and atomic failure for the character-data mutators only (insert_data, delete_data, replace_data, set_data, append_data x 3 node kinds): Err implies data unchanged; IndexSizeErr iff offset past the end. Tree and attribute mutators not covered.',
+        level_note='Trusted as C16. Not decided: every mutator that needs a live node graph.',
+        technique='contract-based deductive verification (Verus postconditions old/final on extracted real functions)',
+        design_ref='DESIGN.md §4 C13'),
     'C02': dict(
         level_text='Proof (Verus, all strings, std digit parsing uninterpreted) that info::char_from_char10/16 return a character only if it is the one denoted by the digits and matches production [2] Char, reject unparsable digits and accept every legal code. Character-reference clause of C02 only.',
         level_note='Trusted: Verus+Z3, extractor, assumed std contracts (parse behind spec_parse, char::from_u32), W3C table transcription. Not decided: all nom-level rejections.',
